@@ -42,31 +42,27 @@ func VerifLemma_C03A_FieldTypeHierarchy() {
 	if pk == ck && !renamed {
 		verifAssert(same.n == 0 && wire.n == 0 && wireJSON.n == 0, "identical resolved type: nothing reported")
 	}
-	loc := "type"
-	if named {
-		loc = "typename"
-	}
 	if pk != ck {
 		verifCover("resolved kind changed")
-		verifAssert(same.n == 1 && same.vbHas(loc, cur), "resolved kind changed (incl. message <-> delimited) => FIELD_SAME_TYPE reports once at the type (name)")
+		verifAssert(same.n >= 1 && same.vbAt(cur), "resolved kind changed (incl. message <-> delimited) => FIELD_SAME_TYPE reports at the field")
 	}
 	if pk == ck && renamed {
 		verifCover("message / group type name changed")
-		verifAssert(same.n == 1 && same.vbHas("typename", cur), "type name changed => FIELD_SAME_TYPE reports at the type name")
-		verifAssert(wire.n == 1 && wireJSON.n == 1, "message / group type name changed => WIRE and WIRE_JSON report")
+		verifAssert(same.n >= 1 && same.vbAt(cur), "type name changed => FIELD_SAME_TYPE reports at the field")
+		verifAssert(wire.n >= 1 && wireJSON.n >= 1 && wire.vbAt(cur) && wireJSON.vbAt(cur), "message / group type name changed => WIRE and WIRE_JSON report at the field")
 	}
 	// documented compatibility groups
 	wantWire := refBrkWireGroup(pk) != refBrkWireGroup(ck) && !(pk == protoreflect.StringKind && ck == protoreflect.BytesKind)
 	wantWJ := refBrkWireJSONGroup(pk) != refBrkWireJSONGroup(ck)
 	if pk != ck {
 		if wantWire {
-			verifAssert(wire.n == 1 && wire.vbHas(loc, cur), "kind changed across WIRE groups => FIELD_WIRE_COMPATIBLE_TYPE reports at the type (name)")
+			verifAssert(wire.n >= 1 && wire.vbAt(cur), "kind changed across WIRE groups => FIELD_WIRE_COMPATIBLE_TYPE reports at the field")
 		} else {
 			verifCover("kind changed inside a WIRE group (or string -> bytes)")
 			verifAssert(wire.n == 0, "kind changed inside a WIRE group (or string -> bytes) => WIRE silent")
 		}
 		if wantWJ {
-			verifAssert(wireJSON.n == 1 && wireJSON.vbHas(loc, cur), "kind changed across WIRE_JSON groups => FIELD_WIRE_JSON_COMPATIBLE_TYPE reports at the type (name)")
+			verifAssert(wireJSON.n >= 1 && wireJSON.vbAt(cur), "kind changed across WIRE_JSON groups => FIELD_WIRE_JSON_COMPATIBLE_TYPE reports at the field")
 		} else {
 			verifCover("kind changed inside a WIRE_JSON group")
 			verifAssert(wireJSON.n == 0, "kind changed inside a WIRE_JSON group => WIRE_JSON silent")
@@ -150,7 +146,7 @@ func VerifLemma_C03A_EnumTypeChange() {
 		verifAssert(wire.n == 0 && wireJSON.n == 0 && same.n == 0, "same enum type name: nothing reported (value changes are other rules' business)")
 		return
 	}
-	verifAssert(same.n == 1 && same.vbHas("typename", cur), "enum type name changed => FIELD_SAME_TYPE reports at the type name")
+	verifAssert(same.n >= 1 && same.vbAt(cur), "enum type name changed => FIELD_SAME_TYPE reports at the field")
 	subset := true
 	for i := 0; i < len(pNames); i++ {
 		found := false
@@ -168,7 +164,7 @@ func VerifLemma_C03A_EnumTypeChange() {
 		verifAssert(wire.n == 0 && wireJSON.n == 0, "moved enum that keeps every previous value is wire(/JSON) compatible")
 	} else {
 		verifCover("enum replaced by an incompatible one")
-		verifAssert(wire.n == 1 && wire.vbHas("typename", cur), "incompatible enum change => WIRE reports at the type name")
-		verifAssert(wireJSON.n == 1 && wireJSON.vbHas("typename", cur), "incompatible enum change => WIRE_JSON reports at the type name")
+		verifAssert(wire.n >= 1 && wire.vbAt(cur), "incompatible enum change => WIRE reports at the field")
+		verifAssert(wireJSON.n >= 1 && wireJSON.vbAt(cur), "incompatible enum change => WIRE_JSON reports at the field")
 	}
 }
